@@ -1,6 +1,675 @@
-//! C07 — not implemented yet.
+//! C07 — Answers do not depend on parallelism, batching or scheduling; every
+//! declared output partition of an operator can be executed.
+//!
+//! Three checks over generated statements (scans, joins of every kind, grouped /
+//! global / DISTINCT aggregates, UNION ALL, ORDER BY, top-k, LIMIT/OFFSET and
+//! bare LIMIT) on 1–2 generated tables of 0–2 600 rows (doubles are multiples of
+//! 0.25, so sums are exact under any association order):
+//!   * `batching` (in-process): the table as ONE batch versus random batch
+//!     layouts — including layouts with >= 1000 rows in >= 2 batches, the gate at
+//!     which `MemoryTableExec` declares several partitions — with
+//!     `with_parallel_partitions(n)`, every configuration executed several times
+//!     to vary the interleaving. Every run must return the answer of the
+//!     one-batch run.
+//!   * `partition_walk` (in-process): for the physical plan of the statement,
+//!     recursively over `children()`, EVERY partition `0..output_partitions()` of
+//!     EVERY operator is executed: none may fail with the `check_partition`
+//!     error, and partition `output_partitions()` must be rejected.
+//!   * `threads` (sub-processes, because rayon's global pool size is fixed per
+//!     process): `check --worker c07 <casefile>` is spawned with
+//!     `RAYON_NUM_THREADS ∈ {1,2,3,8}`; each worker runs a batch of statements on
+//!     both layouts, several times each, and prints the normalised rows. Every
+//!     run must return the answer of the 1-thread / one-batch run.
+//! `refsql` is evaluated only to annotate a failure message.
 use super::Property;
+use crate::data::*;
+use crate::engine::*;
+use crate::runner::*;
+use proptest::prelude::*;
+use query_engine::physical::PhysicalOperator;
+use query_engine::ExecutionContext;
+use serde::{Deserialize, Serialize};
+use std::sync::Arc;
+
+#[path = "cfgdiff_util.rs"]
+mod util;
+use util::*;
+
+fn tables_profile(tier: Tier) -> TablesProfile {
+    TablesProfile {
+        max_tables: 2,
+        min_rows: 0,
+        max_rows: tier.pick(60, 400),
+        max_cols: 4,
+        types: vec![ColType::Int, ColType::Int, ColType::Int32, ColType::Double, ColType::Str, ColType::Date, ColType::Bool],
+        domains: vec![1, 2, 3, 7, 20, 100, 1000],
+        null_pcts: vec![0, 10, 40],
+        sparse: false,
+        // the multi-partition gate of MemoryTableExec is 1000 rows: 1 table in 10
+        // draws from this range (see `big_rows`), the rest stays small
+        big_rows: Some((1000, tier.pick(2600, 12_000))),
+    }
+}
+
+fn opts() -> GenOpts {
+    GenOpts {
+        order_pct: 40,
+        limit_pct: 40,
+        max_join_rows: 8_000,
+        self_join_pct: 30,
+        w_scan: 20,
+        w_join: 20,
+        w_agg: 35,
+        w_distinct: 10,
+        w_union: 15,
+        union_all: true,
+        unordered_limit_pct: 20,
+        // open C01 finding (NULL group dropped by the fused / raw paths): the path
+        // taken depends on batching, so keep it a minority
+        null_group_keys_pct: 25,
+        ..GenOpts::default()
+    }
+}
+
+fn tables_strategy7(tier: Tier) -> BoxedStrategy<Vec<TableSpec>> {
+    // 1 in 10 is far too rare for the gate: re-weight by mapping
+    let tp = tables_profile(tier);
+    let big = tp.big_rows.unwrap();
+    (tables_spec_strategy(tp), proptest::collection::vec((proptest::bool::weighted(0.45), big.0..=big.1), 2))
+        .prop_map(|(mut ts, bigs)| {
+            for (t, (b, n)) in ts.iter_mut().zip(bigs) {
+                if b {
+                    t.n_rows = n;
+                }
+            }
+            ts
+        })
+        .boxed()
+}
+
+fn has(s: &Stmt, f: &str) -> bool {
+    s.features.iter().any(|x| x == f)
+}
+
+fn ctx_for(tables: &[Table], cut_sels: &[Vec<u16>], partitions: usize) -> ExecutionContext {
+    let mut ctx = ExecutionContext::new().with_parallel_partitions(partitions.max(1));
+    for (i, t) in tables.iter().enumerate() {
+        let cuts = cuts_from(cut_sels.get(i).map(|v| v.as_slice()).unwrap_or(&[]), t.rows.len());
+        register_mem(&mut ctx, t, &cuts);
+    }
+    ctx
+}
+
+/// max output_partitions() over the operators of a plan
+fn max_partitions(op: &Arc<dyn PhysicalOperator>) -> usize {
+    let mut m = op.output_partitions();
+    for c in op.children() {
+        m = m.max(max_partitions(&c));
+    }
+    m
+}
+
+/// The statement without its bare LIMIT (the answer a `limit_unordered`
+/// statement must be drawn from).
+fn without_limit(s: &Stmt) -> crate::sqlast::Query {
+    let mut q = s.query.clone();
+    q.limit = None;
+    q
+}
+
+/// Compare one run against the baseline under the statement's rule.
+fn agree(stmt: &Stmt, base: &Rows, full: Option<&Rows>, got: &Rows, tol: f64) -> Result<(), String> {
+    if has(stmt, "limit_unordered") {
+        match full {
+            Some(f) => limit_unordered_ok(f, got, stmt.query.limit.unwrap_or(0)),
+            None => Ok(()),
+        }
+    } else {
+        same_answer(base, got, &stmt.order_keys, tol)
+    }
+}
+
+/// Known-finding signatures (see known_findings.json, property C07).
+fn classify(stmt: &Stmt, tables: &[Table], base: &Rows, got: &Rows) -> Option<&'static str> {
+    use crate::sqlast::*;
+    let _ = tables;
+    // C01 finding agg-empty-input: a global aggregate over no (non-NULL) input is a sentinel on
+    // the single-batch scalar path and NULL on the multi-batch paths
+    if has(stmt, "global_agg") && base.len() == 1 && got.len() == 1 {
+        let sentinel = |v: &Value| match v {
+            Value::Int(i) => *i == i64::MAX || *i == i64::MIN || *i == i32::MAX as i64 || *i == i32::MIN as i64,
+            Value::Double(d) => d.is_infinite() || *d == f64::MAX || *d == f64::MIN,
+            Value::Date(d) => *d == i32::MAX || *d == i32::MIN,
+            _ => false,
+        };
+        let cells: Vec<(&Value, &Value)> = base[0].iter().zip(got[0].iter()).filter(|(x, y)| !value_eq(x, y, 1e-9)).collect();
+        if !cells.is_empty() && cells.iter().all(|(x, y)| (x.is_null() && sentinel(y)) || (y.is_null() && sentinel(x))) {
+            return Some("agg-empty-input");
+        }
+    }
+    // C01 finding agg-null-group-key: the aggregation path (fused / raw integer key / vectorized)
+    // depends on the batch layout; some paths drop the NULL group or fold it into one other group
+    if let SetExpr::Select(s) = &stmt.query.body {
+        if let Group::By(keys) = &s.group {
+            let nk = keys.len();
+            let (only_a, only_b) = sym_diff(base, got);
+            let null_key = |r: &Vec<Value>| r.iter().take(nk).any(|v| v.is_null());
+            let mut other_keys: Vec<Vec<Value>> = only_a.iter().chain(only_b.iter()).filter(|r| !null_key(r)).map(|r| r.iter().take(nk).cloned().collect()).collect();
+            other_keys.sort_by(|x, y| row_cmp(x, y));
+            other_keys.dedup();
+            let some_null = base.iter().chain(got.iter()).any(null_key);
+            if stmt.query.limit.is_none() && some_null && !(only_a.is_empty() && only_b.is_empty()) && other_keys.len() <= 1 {
+                return Some("agg-null-group-key");
+            }
+        }
+    }
+    None
+}
+
+// ---------------------------------------------------------------------------
+// (a) batching
+// ---------------------------------------------------------------------------
+
+#[derive(Clone, Debug, Serialize, Deserialize)]
+pub struct BatchCase {
+    pub tables: Vec<TableSpec>,
+    /// batch layouts: per layout, per table, cut selectors
+    pub layouts: Vec<Vec<Vec<u16>>>,
+    pub stmt: Stmt,
+    pub partitions: usize,
+    pub repeats: usize,
+}
+
+fn cut_sels_strategy() -> impl Strategy<Value = Vec<Vec<u16>>> {
+    proptest::collection::vec(
+        (prop_oneof![Just(0usize), Just(1), Just(1), Just(2), Just(3), Just(7)], proptest::collection::vec(any::<u16>(), 7)).prop_map(|(n, v)| v.into_iter().take(n).collect::<Vec<u16>>()),
+        2,
+    )
+}
+
+fn batch_strategy(tier: Tier) -> BoxedStrategy<BatchCase> {
+    (
+        tables_strategy7(tier),
+        proptest::collection::vec(any::<u16>(), 0..80),
+        proptest::collection::vec(cut_sels_strategy(), 2),
+        prop_oneof![Just(1usize), Just(2), Just(3), Just(8), Just(16)],
+    )
+        .prop_map(move |(tables, tape, layouts, partitions)| {
+            let stmt = gen_stmt(tape, &tables, &opts());
+            BatchCase { tables, layouts, stmt, partitions, repeats: tier.pick(3, 5) }
+        })
+        .boxed()
+}
+
+pub struct Batching;
+impl Check for Batching {
+    type Case = BatchCase;
+    fn name(&self) -> &'static str {
+        "batching"
+    }
+    fn rule(&self) -> &'static str {
+        "the one-batch run answered, some layout had >= 2 batches, and some operator of the plan of a compared layout declared > 1 output partition"
+    }
+    fn cases(&self, tier: Tier) -> u32 {
+        tier.pick(400, 20_000)
+    }
+    fn max_shrink_iters(&self) -> u32 {
+        400
+    }
+    fn strategy(&self, tier: Tier) -> BoxedStrategy<BatchCase> {
+        batch_strategy(tier)
+    }
+    fn test(&self, c: &BatchCase, obs: &mut Obs) -> Verdict {
+        let tables: Vec<Table> = c.tables.iter().map(|t| t.expand()).collect();
+        let sql = c.stmt.query.sql();
+        for f in &c.stmt.features {
+            obs.label(format!("feat:{}", f));
+        }
+        obs.sample(serde_json::json!({"sql": sql, "rows": c.tables.iter().map(|t| t.n_rows).collect::<Vec<_>>(), "partitions": c.partitions}));
+        let tol = if c.stmt.uses_avg { 1e-9 } else { 0.0 };
+        let base_ctx = ctx_for(&tables, &[], 1);
+        let base = match run_sql(&base_ctx, &sql) {
+            Ok(r) => r,
+            Err(e) => {
+                obs.label(format!("baseline_error:{}", short_err(&e)));
+                return Verdict::Pass;
+            }
+        };
+        if base.len() > 200_000 {
+            return Verdict::Discard("answer_too_large".into());
+        }
+        let full = if has(&c.stmt, "limit_unordered") { run_sql(&base_ctx, &without_limit(&c.stmt).sql()).ok() } else { None };
+        let mut known: Option<(String, String)> = None;
+        let mut multi_partition = false;
+        let mut multi_batch = false;
+        // layout 0 = one batch again (pure schedule repetition)
+        let mut layouts: Vec<Vec<Vec<u16>>> = vec![vec![]];
+        layouts.extend(c.layouts.iter().cloned());
+        for (li, sels) in layouts.iter().enumerate() {
+            let ctx = ctx_for(&tables, sels, c.partitions);
+            let cuts: Vec<Vec<usize>> = tables.iter().enumerate().map(|(i, t)| cuts_from(sels.get(i).map(|v| v.as_slice()).unwrap_or(&[]), t.rows.len())).collect();
+            if cuts.iter().any(|c| !c.is_empty()) {
+                multi_batch = true;
+            }
+            if let Ok(p) = ctx.physical_plan(&sql) {
+                if max_partitions(&p) > 1 {
+                    multi_partition = true;
+                    obs.label("plan_multi_partition");
+                }
+            }
+            for rep in 0..c.repeats.max(1) {
+                match run_sql(&ctx, &sql) {
+                    Err(e) => {
+                        obs.label(format!("layout_error:{}", short_err(&e)));
+                        if e.contains("out of range (output_partitions=") {
+                            return Verdict::Fail(format!("a declared partition could not be executed: {}\n sql: {}\n batch cuts: {:?}\n tables:\n{}", e, sql, cuts, fmt_specs(&c.tables)));
+                        }
+                    }
+                    Ok(rows) => {
+                        if let Err(why) = agree(&c.stmt, &base, full.as_ref(), &rows, tol) {
+                            let msg = format!(
+                                "batch layout {} (cuts {:?}, parallel_partitions={}), repetition {}: {}\n sql: {}\n one-batch answer ({} rows) vs this run ({} rows):\n{}\n {}\n tables:\n{}",
+                                li,
+                                cuts,
+                                c.partitions,
+                                rep,
+                                why,
+                                sql,
+                                base.len(),
+                                rows.len(),
+                                diff_summary(&base, &rows, 8),
+                                third_opinion(&tables, &c.stmt.query, &[("one-batch", &base), ("this-run", &rows)], tol),
+                                fmt_specs(&c.tables)
+                            );
+                            match classify(&c.stmt, &tables, &base, &rows) {
+                                Some(id) => {
+                                    obs.label(format!("known:{}", id));
+                                    known.get_or_insert((id.to_string(), msg));
+                                }
+                                None => return Verdict::Fail(msg),
+                            }
+                        }
+                    }
+                }
+            }
+        }
+        obs.nontrivial(multi_batch && multi_partition);
+        match known {
+            Some((id, msg)) => Verdict::Known { id, msg },
+            None => Verdict::Pass,
+        }
+    }
+}
+
+// ---------------------------------------------------------------------------
+// (c) partition walk
+// ---------------------------------------------------------------------------
+
+pub struct PartitionWalk;
+
+struct WalkStats {
+    operators: usize,
+    executed: usize,
+    multi: usize,
+    other_errors: Vec<String>,
+}
+
+fn exec_partition(op: &Arc<dyn PhysicalOperator>, p: usize) -> Result<usize, String> {
+    use futures::TryStreamExt;
+    let op = op.clone();
+    let r = std::panic::catch_unwind(std::panic::AssertUnwindSafe(|| {
+        block_on(async move {
+            let fut = async {
+                let s = op.execute(p).await.map_err(|e| e.to_string())?;
+                let batches: Vec<arrow::record_batch::RecordBatch> = s.try_collect().await.map_err(|e| e.to_string())?;
+                Ok::<usize, String>(batches.iter().map(|b| b.num_rows()).sum())
+            };
+            match tokio::time::timeout(std::time::Duration::from_secs(30), fut).await {
+                Ok(r) => r,
+                Err(_) => Err("TIMEOUT executing a single partition".to_string()),
+            }
+        })
+    }));
+    match r {
+        Ok(x) => x,
+        Err(p) => Err(format!("PANIC: {}", panic_text(p))),
+    }
+}
+
+fn walk(op: &Arc<dyn PhysicalOperator>, path: &str, st: &mut WalkStats) -> Result<(), String> {
+    let n = op.output_partitions();
+    let here = format!("{}/{}", path, op.name());
+    st.operators += 1;
+    if n > 1 {
+        st.multi += 1;
+    }
+    for p in 0..n {
+        match exec_partition(op, p) {
+            Ok(_) => st.executed += 1,
+            Err(e) if e.contains("out of range (output_partitions=") => {
+                return Err(format!("operator {} declares {} output partitions but executing partition {} fails: {}", here, n, p, e));
+            }
+            Err(e) => st.other_errors.push(short_err(&e)),
+        }
+    }
+    // the first undeclared partition must be rejected
+    match exec_partition(op, n) {
+        Err(e) if e.contains("out of range") => {}
+        Err(e) => st.other_errors.push(format!("undeclared:{}", short_err(&e))),
+        Ok(rows) => {
+            return Err(format!(
+                "operator {} declares {} output partitions but accepted execute({}) and returned {} rows instead of rejecting it (check_partition contract)",
+                here, n, n, rows
+            ));
+        }
+    }
+    for c in op.children() {
+        walk(&c, &here, st)?;
+    }
+    Ok(())
+}
+
+impl Check for PartitionWalk {
+    type Case = BatchCase;
+    fn name(&self) -> &'static str {
+        "partition_walk"
+    }
+    fn rule(&self) -> &'static str {
+        "a physical plan was built and at least one of its operators declared > 1 output partition; every declared partition of every operator was executed and partition output_partitions() was attempted"
+    }
+    fn cases(&self, tier: Tier) -> u32 {
+        tier.pick(300, 15_000)
+    }
+    fn max_shrink_iters(&self) -> u32 {
+        400
+    }
+    fn strategy(&self, tier: Tier) -> BoxedStrategy<BatchCase> {
+        batch_strategy(tier)
+    }
+    fn test(&self, c: &BatchCase, obs: &mut Obs) -> Verdict {
+        let tables: Vec<Table> = c.tables.iter().map(|t| t.expand()).collect();
+        let sql = c.stmt.query.sql();
+        for f in &c.stmt.features {
+            obs.label(format!("feat:{}", f));
+        }
+        obs.sample(serde_json::json!({"sql": sql, "rows": c.tables.iter().map(|t| t.n_rows).collect::<Vec<_>>()}));
+        let mut any_multi = false;
+        for sels in c.layouts.iter() {
+            let ctx = ctx_for(&tables, sels, c.partitions);
+            let plan = match ctx.physical_plan(&sql) {
+                Ok(p) => p,
+                Err(e) => {
+                    obs.label(format!("plan_error:{}", short_err(&e.to_string())));
+                    continue;
+                }
+            };
+            let mut st = WalkStats { operators: 0, executed: 0, multi: 0, other_errors: vec![] };
+            if let Err(why) = walk(&plan, "", &mut st) {
+                let cuts: Vec<Vec<usize>> = tables.iter().enumerate().map(|(i, t)| cuts_from(sels.get(i).map(|v| v.as_slice()).unwrap_or(&[]), t.rows.len())).collect();
+                return Verdict::Fail(format!(
+                    "{}\n sql: {}\n plan:\n{}\n batch cuts: {:?}\n tables:\n{}",
+                    why,
+                    sql,
+                    query_engine::physical::display_plan(plan.as_ref(), 1),
+                    cuts,
+                    fmt_specs(&c.tables)
+                ));
+            }
+            for e in &st.other_errors {
+                obs.label(format!("walk_error:{}", e));
+            }
+            if st.multi > 0 {
+                any_multi = true;
+                obs.label("walked_multi_partition_operator");
+            }
+        }
+        obs.nontrivial(any_multi);
+        Verdict::Pass
+    }
+}
+
+// ---------------------------------------------------------------------------
+// (b) thread counts, in sub-processes
+// ---------------------------------------------------------------------------
+
+#[derive(Clone, Debug, Serialize, Deserialize)]
+pub struct ThreadCase {
+    pub tables: Vec<TableSpec>,
+    pub cut_sels: Vec<Vec<u16>>,
+    pub stmts: Vec<Stmt>,
+    pub threads: Vec<usize>,
+    pub repeats: usize,
+}
+
+#[derive(Serialize, Deserialize)]
+struct WorkerOut {
+    threads: usize,
+    /// per statement: max output_partitions over the plan on the multi-batch layout
+    max_partitions: Vec<usize>,
+    /// [statement][layout: 0 = one batch, 1 = cut layout][repetition]
+    results: Vec<Vec<Vec<Result<Rows, String>>>>,
+}
+
+const MARK: &str = "C07RESULT ";
+
+/// `check --worker c07 <casefile>`: run every statement on both layouts,
+/// `repeats` times, under this process's rayon pool size; print the rows.
+pub fn worker(args: &[String]) {
+    let txt = std::fs::read_to_string(&args[0]).expect("read casefile");
+    let c: ThreadCase = serde_json::from_str(&txt).expect("casefile parses");
+    let tables: Vec<Table> = c.tables.iter().map(|t| t.expand()).collect();
+    let mut out = WorkerOut { threads: rayon::current_num_threads(), max_partitions: vec![], results: vec![] };
+    for s in &c.stmts {
+        let sql = s.query.sql();
+        let mut per_layout = vec![];
+        let mut maxp = 0;
+        for sels in [&Vec::<Vec<u16>>::new(), &c.cut_sels] {
+            let ctx = ctx_for(&tables, sels, rayon::current_num_threads());
+            if let Ok(p) = ctx.physical_plan(&sql) {
+                maxp = maxp.max(max_partitions(&p));
+            }
+            let mut reps = vec![];
+            for _ in 0..c.repeats.max(1) {
+                reps.push(run_sql(&ctx, &sql));
+            }
+            per_layout.push(reps);
+        }
+        out.max_partitions.push(maxp);
+        out.results.push(per_layout);
+    }
+    println!("{}{}", MARK, serde_json::to_string(&out).expect("serialise"));
+}
+
+fn spawn_worker(casefile: &std::path::Path, threads: usize) -> Result<WorkerOut, String> {
+    let exe = std::env::current_exe().map_err(|e| e.to_string())?;
+    let out = std::process::Command::new(exe)
+        .arg("--worker")
+        .arg("c07")
+        .arg(casefile)
+        .env("RAYON_NUM_THREADS", threads.to_string())
+        .output()
+        .map_err(|e| format!("spawn: {}", e))?;
+    let stdout = String::from_utf8_lossy(&out.stdout);
+    match stdout.lines().find(|l| l.starts_with(MARK)) {
+        Some(l) => serde_json::from_str(&l[MARK.len()..]).map_err(|e| format!("worker output does not parse: {}", e)),
+        None => Err(format!(
+            "worker (RAYON_NUM_THREADS={}) produced no result: status {:?}, stderr tail: {}",
+            threads,
+            out.status.code(),
+            String::from_utf8_lossy(&out.stderr).lines().rev().take(5).collect::<Vec<_>>().join(" | ")
+        )),
+    }
+}
+
+pub struct Threads;
+impl Check for Threads {
+    type Case = ThreadCase;
+    fn name(&self) -> &'static str {
+        "threads"
+    }
+    fn rule(&self) -> &'static str {
+        "for some statement of the batch an operator of its plan declared > 1 output partition in some worker, and >= 2 workers with different RAYON_NUM_THREADS returned identical answers for it"
+    }
+    fn cases(&self, tier: Tier) -> u32 {
+        tier.pick(30, 700)
+    }
+    fn workers(&self, _tier: Tier) -> usize {
+        4 // each case spawns sub-processes that start their own thread pools
+    }
+    fn max_shrink_iters(&self) -> u32 {
+        60
+    }
+    fn strategy(&self, tier: Tier) -> BoxedStrategy<ThreadCase> {
+        let per_case = tier.pick(6usize, 8usize);
+        (tables_strategy7(tier), proptest::collection::vec(proptest::collection::vec(any::<u16>(), 0..80), per_case), cut_sels_strategy())
+            .prop_map(move |(tables, tapes, cut_sels)| {
+                let stmts = tapes.into_iter().map(|t| gen_stmt(t, &tables, &opts())).collect();
+                ThreadCase { tables, cut_sels, stmts, threads: tier.pick(vec![1, 2, 3, 8], vec![1, 2, 3, 4, 8, 16]), repeats: tier.pick(2, 5) }
+            })
+            .boxed()
+    }
+    fn test(&self, c: &ThreadCase, obs: &mut Obs) -> Verdict {
+        let tables: Vec<Table> = c.tables.iter().map(|t| t.expand()).collect();
+        let tmp = TempDir::new("c07");
+        let casefile = tmp.path().join("case.json");
+        std::fs::write(&casefile, serde_json::to_string(c).unwrap()).expect("write casefile");
+        let mut outs: Vec<WorkerOut> = vec![];
+        for &t in &c.threads {
+            match spawn_worker(&casefile, t) {
+                Ok(o) => {
+                    if o.threads != t {
+                        obs.label("worker_thread_count_differs_from_request");
+                    }
+                    outs.push(o);
+                }
+                Err(e) => {
+                    obs.label(format!("worker_failed:{}", short_err(&e)));
+                    return Verdict::Discard("worker_failed".into());
+                }
+            }
+        }
+        let mut known: Option<(String, String)> = None;
+        let mut nontrivial = false;
+        for (si, s) in c.stmts.iter().enumerate() {
+            let sql = s.query.sql();
+            for f in &s.features {
+                obs.label(format!("feat:{}", f));
+            }
+            let tol = if s.uses_avg { 1e-9 } else { 0.0 };
+            let base = match &outs[0].results[si][0][0] {
+                Ok(r) => r.clone(),
+                Err(e) => {
+                    obs.label(format!("baseline_error:{}", short_err(e)));
+                    continue;
+                }
+            };
+            let full = if has(s, "limit_unordered") { run_sql(&ctx_for(&tables, &[], 1), &without_limit(s).sql()).ok() } else { None };
+            let mut agreeing_thread_counts = 0;
+            for o in &outs {
+                let mut all_agree = true;
+                for (li, reps) in o.results[si].iter().enumerate() {
+                    for (ri, r) in reps.iter().enumerate() {
+                        match r {
+                            Err(e) => {
+                                all_agree = false;
+                                obs.label(format!("run_error:{}", short_err(e)));
+                                if e.contains("out of range (output_partitions=") {
+                                    return Verdict::Fail(format!("a declared partition could not be executed with RAYON_NUM_THREADS={}: {}\n sql: {}\n tables:\n{}", o.threads, e, sql, fmt_specs(&c.tables)));
+                                }
+                            }
+                            Ok(rows) => {
+                                if let Err(why) = agree(s, &base, full.as_ref(), rows, tol) {
+                                    all_agree = false;
+                                    let cuts: Vec<Vec<usize>> = tables.iter().enumerate().map(|(i, t)| cuts_from(c.cut_sels.get(i).map(|v| v.as_slice()).unwrap_or(&[]), t.rows.len())).collect();
+                                    let msg = format!(
+                                        "RAYON_NUM_THREADS={} layout {} repetition {} (statement {} of the batch): {}\n sql: {}\n 1-thread one-batch answer ({} rows) vs this run ({} rows):\n{}\n {}\n batch cuts of layout 1: {:?}\n tables:\n{}",
+                                        o.threads,
+                                        if li == 0 { "one-batch" } else { "cut" },
+                                        ri,
+                                        si,
+                                        why,
+                                        sql,
+                                        base.len(),
+                                        rows.len(),
+                                        diff_summary(&base, rows, 8),
+                                        third_opinion(&tables, &s.query, &[("baseline", &base), ("this-run", rows)], tol),
+                                        cuts,
+                                        fmt_specs(&c.tables)
+                                    );
+                                    match classify(s, &tables, &base, rows) {
+                                        Some(id) => {
+                                            obs.label(format!("known:{}", id));
+                                            known.get_or_insert((id.to_string(), msg));
+                                        }
+                                        None => return Verdict::Fail(msg),
+                                    }
+                                }
+                            }
+                        }
+                    }
+                }
+                if all_agree {
+                    agreeing_thread_counts += 1;
+                }
+            }
+            let multi = outs.iter().any(|o| o.max_partitions.get(si).copied().unwrap_or(1) > 1);
+            if multi {
+                obs.label("stmt_multi_partition");
+            }
+            if multi && agreeing_thread_counts >= 2 {
+                nontrivial = true;
+            }
+        }
+        obs.nontrivial(nontrivial);
+        match known {
+            Some((id, msg)) => Verdict::Known { id, msg },
+            None => Verdict::Pass,
+        }
+    }
+}
 
 pub fn property() -> Property {
-    Property { id: "C07", level: "exploration", assumptions: &[], checks: vec![] }
+    Property {
+        id: "C07",
+        level: "exploration",
+        assumptions: &[
+            "thread counts are varied through RAYON_NUM_THREADS in sub-processes (rayon's global pool is sized once per process); the tokio runtime of the harness keeps 8 worker threads",
+            "task interleavings are varied only by repetition (2-5 runs per configuration), not controlled",
+            "an engine error under one batching / thread count only is labelled, not failed, unless it is the check_partition error (the property's last sentence)",
+            "doubles are multiples of 0.25 so sums are exact under any association order; AVG results are compared with relative tolerance 1e-9; a bare LIMIT k may return any k rows of the un-limited answer",
+        ],
+        checks: vec![Box::new(Batching), Box::new(PartitionWalk), Box::new(Threads)],
+    }
+}
+
+/// Triage aid (`check --worker c07dbg <n_rows> <seed> <cut> <repeats> "<sql over s(a BIGINT, b BIGINT)>"`):
+/// runs the statement `repeats` times on the table split at `cut` and counts
+/// the distinct answers (schedule-dependent results show up as > 1).
+pub fn debug(args: &[String]) {
+    let n_rows: usize = args[0].parse().unwrap();
+    let seed: u64 = args[1].parse().unwrap();
+    let cut: usize = args[2].parse().unwrap();
+    let repeats: usize = args[3].parse().unwrap();
+    let sql = &args[4];
+    let col = |name: &str| ColSpec { name: name.into(), ty: ColType::Int, domain: 3, null_pct: 30, base: 0, stride: 1 };
+    let spec = TableSpec { name: "s".into(), cols: vec![col("a"), col("b")], n_rows, seed };
+    let t = spec.expand();
+    println!("{}", fmt_rows(&t.rows, 30));
+    let mut seen: std::collections::BTreeMap<String, usize> = Default::default();
+    for _ in 0..repeats {
+        let mut ctx = ExecutionContext::new();
+        register_mem(&mut ctx, &t, &[cut]);
+        let k = match run_sql(&ctx, sql) {
+            Ok(mut r) => {
+                canon_sort(&mut r);
+                format!("{} rows\n{}", r.len(), fmt_rows(&r, 40))
+            }
+            Err(e) => format!("ERROR {}", e),
+        };
+        *seen.entry(k).or_insert(0) += 1;
+    }
+    println!("threads={} distinct answers: {}", rayon::current_num_threads(), seen.len());
+    for (k, n) in seen {
+        println!("--- {} times:\n{}", n, k);
+    }
 }
